@@ -125,6 +125,38 @@ def gen_cases(rng, tier):
         else:
             n = rng.randrange(1, 10 ** rng.randrange(1, 10))
         cases.append((max(n, 1), g))
+    # grids that already have the SHAPE of a normalised grid (first index -4, exactly one marker at or before
+    # sample 0, exactly one at or beyond the end) - e.g. a grid normalised earlier for a track of another length -
+    # with the end anywhere in the last segment, so that the last marker is anything from 0 to many beats past the
+    # end; tempo changes between segments are frequent here (round 5, seeded C20-4: an "already normalised" fast
+    # path that measured the last beat with the average tempo of the whole grid)
+    n_shape = 160 if tier == "quick" else 8000
+    for _ in range(n_shape):
+        k = rng.choice([3, 3, 3, 4, 5, 8])
+        spb = rng.choice([1000.0, 22050.0, 64.0, float(rng.randrange(50, 100000))])
+        first = -spb * rng.choice([0.0, 0.5, 1.0, 3.0, 7.0, rng.uniform(0, 16)])
+        g, idx, off = [], -4, first
+        for j in range(k):
+            g.append((idx, off))
+            step = rng.choice([1, 4, 8, 16, rng.randrange(1, 40)])
+            if j == 0:
+                # the second marker must lie after sample 0
+                while off + step * spb <= 0:
+                    step += 4
+            idx += step
+            off = off + step * spb
+            if rng.random() < 0.7:
+                spb = spb * rng.choice([0.5, 2.0, 0.8, 1.25, rng.uniform(0.4, 2.5)])
+        lo, hi = g[-2][1], g[-1][1]
+        c = rng.random()
+        if c < 0.2:
+            n = int(hi)                                # already exact
+        elif c < 0.4:
+            n = int(hi - rng.uniform(0, 2) * (hi - lo) / max(1, g[-1][0] - g[-2][0]))   # within two last-segment beats
+        else:
+            n = int(rng.uniform(lo + 1, hi))
+        if n > max(1, int(lo)):
+            cases.append((n, g))
     return cases
 
 
